@@ -1,5 +1,6 @@
 (** C13 on graphs with binds, for passes with a writing plan and for passes in which a node or bind
-    function returns an error.
+    function returns an error.  (ANY plan -- writes and any number of errors / panics of node, bind and
+    cutoff functions: C13_binds_any_plan.v, which subsumes the failing-pass half of this file.)
     - writes: the pass runs exactly the handlers of the write-free pass; an observer's event
       carries the value its node held when the computations ended ([t'], the write-free result),
       not the deferred write ([C13_binds_writes]);
